@@ -823,7 +823,7 @@ class ReactionSystem(object):
         for s_obj in self.substances.values():
             choose_from = []
             for comp_nr, coeff in s_obj.composition.items():
-                if comp_nr == 0:
+                if comp_nr == 0 or comp_nr in skip_keys:
                     continue
                 choose_from.append(composition_conc[comp_nr] / coeff)
             if len(choose_from) == 0:
